@@ -325,11 +325,13 @@ Spline<K, G> Spline<K, G>::crop(double ta, double tb, bool localize) const
   for (auto i = 0u; i < Nseg; ++i) {
     if (i == Nseg - 1) {
       end_t[i] = tb - ta;
-      end_g[i] = composition(inverse(ga), operator()(tb));
+      end_g[i] = operator()(tb);
     } else {
       end_t[i] = m_end_t[i0 + i] - ta;
-      end_g[i] = composition(inverse(ga), m_end_g[i0 + i]);
+      end_g[i] = m_end_g[i0 + i];
     }
+    // segment end points are stored in the frame of the returned spline
+    if (localize) { end_g[i] = composition(inverse(ga), end_g[i]); }
     vs[i]      = m_Vs[i0 + i];
     seg_T0[i]  = m_seg_T0[i0 + i];
     seg_Del[i] = m_seg_Del[i0 + i];
